@@ -835,6 +835,28 @@ func c05Closes(c *core.Ctx, ls *core.LockSets, fns []*ssa.Function) []closeSite 
 							}
 						})
 					}
+					// the single site may sit in another method of the type that itself has a single site (the
+					// closer as the deferred tail of finish): climb
+					for hop := 0; hop < 3 && len(sites) == 1 && core.LoopOf(siteFns[0])[sites[0].Block()] < 0; hop++ {
+						up := siteFns[0]
+						if up.Parent() != nil || up.Signature.Recv() == nil || core.NamedOf(up.Signature.Recv().Type()) != cs.typ {
+							break
+						}
+						var s2 []ssa.Instruction
+						var f2 []*ssa.Function
+						for _, g := range fns {
+							core.Instrs(g, func(x ssa.Instruction) {
+								if c2 := core.CallOf(x); c2 != nil && core.InfoOf(c2).Static == up {
+									s2 = append(s2, x)
+									f2 = append(f2, g)
+								}
+							})
+						}
+						if len(s2) != 1 {
+							break
+						}
+						sites, siteFns = s2, f2
+					}
 					if len(sites) == 1 && core.LoopOf(siteFns[0])[sites[0].Block()] < 0 {
 						// the site's function chain constructs the receiver object
 						root := siteFns[0]
@@ -1054,11 +1076,7 @@ func c05Sends(c *core.Ctx, ls *core.LockSets, fns []*ssa.Function, closers []clo
 			continue
 		}
 		// in the closing function (chain), before the close
-		root := cl.fn
-		for root.Parent() != nil {
-			root = root.Parent()
-		}
-		if s.fn == root || s.fn == cl.fn {
+		if closerChain(cl.fn)[s.fn] {
 			c.Ok(key, s.instr.Pos(), "send in the closing function; the close runs in its deferred tail")
 			continue
 		}
@@ -1131,12 +1149,9 @@ func notClosedGuard(ls *core.LockSets, fns []*ssa.Function, fn *ssa.Function, in
 		core.Instrs(caller, func(x ssa.Instruction) {
 			if cc := core.CallOf(x); cc != nil && core.InfoOf(cc).Static == fn {
 				n++
-				// the closing function's own chain is fine
-				root := cl.fn
-				for root.Parent() != nil {
-					root = root.Parent()
-				}
-				if caller == root || caller == cl.fn {
+				// the closing function's own chain is fine (its enclosing functions, and the function that runs it
+				// as its deferred tail when the closer is a single-use method)
+				if closerChain(cl.fn)[caller] {
 					return
 				}
 				if !notClosedGuard(ls, fns, caller, x, typ, cl, depth+1) {
@@ -1679,6 +1694,14 @@ func c05DoneBeforeFinalWrites(c *core.Ctx, fns []*ssa.Function) {
 				}
 			}
 		})
+		// … and the writes made by a single-use step function the finisher calls (sendFinalFramesLocked)
+		core.Instrs(fn, func(in ssa.Instruction) {
+			if call, ok := in.(*ssa.Call); ok {
+				if cal := call.Call.StaticCallee(); cal != nil && cal.Blocks != nil && core.InlineSite[cal] == in && len(sendSites([]*ssa.Function{cal})) > 0 {
+					sends = append(sends, sendSite{fn, in, nil})
+				}
+			}
+		})
 		if len(cancelCalls) == 0 || len(sends) == 0 {
 			continue
 		}
@@ -1957,4 +1980,24 @@ func c05ReplyBodyClosed(c *core.Ctx, fns []*ssa.Function) {
 	if n < 2 {
 		c.Fail("httpgrpc:roundtrips", token.NoPos, "ANCHOR-MISSING: expected the unary and the streaming RoundTrip, found %d", n)
 	}
+}
+
+// closerChain: the closing function, the functions it is nested in, and — when
+// it is a single-use function (the deferred tail written as a method) — the
+// function that calls it and those that one is nested in. Only the closer
+// itself and the outermost function of the chain count as "the closing
+// function" (a sibling literal in between does not).
+func closerChain(fn *ssa.Function) map[*ssa.Function]bool {
+	chain := map[*ssa.Function]bool{fn: true}
+	root := fn
+	if root.Parent() == nil {
+		if site := core.InlineSite[root]; site != nil {
+			root = site.Parent()
+		}
+	}
+	for root.Parent() != nil {
+		root = root.Parent()
+	}
+	chain[root] = true
+	return chain
 }
